@@ -301,6 +301,9 @@ func Serve(opts Options) error {
 	} else {
 		lock = new(rwmutex)
 	}
+	if l := verifNewLock(&opts); l != nil {
+		lock = l
+	}
 
 	// Initialize the s
 	s := &Server{
@@ -565,6 +568,7 @@ func (s *Server) netServe() error {
 	if err != nil {
 		return err
 	}
+	ln = verifWrapListener(s, ln)
 	s.lnmu.Lock()
 	s.ln = ln
 	s.lnmu.Unlock()
